@@ -3,6 +3,7 @@ import Driver.Codec
 import Driver.Conv
 import Driver.Pool
 import Driver.Slice
+import Driver.Split
 import Driver.Search
 
 open Driver
@@ -13,6 +14,7 @@ def dispatch (c : Case) : Verdict :=
   else if fam == "conv" || fam == "blk.conv" || fam == "reval" then Driver.Conv.handle c
   else if fam == "hist" then Driver.Pool.handle c
   else if fam.startsWith "sl." then Driver.Slice.handle c
+  else if fam.startsWith "sp." then Driver.Split.handle c
   else if fam == "find" || fam == "findlast" || fam == "contains" || fam == "starts" || fam == "ends" || fam == "blk.search" then Driver.Search.handle c
   else { corr := false, why := "no handler for op " ++ c.op }
 
